@@ -1,7 +1,7 @@
 (* C17  Semantic tokens: deltas reconstruct the full result; a range answer is the full
    answer restricted to the lines.  (The geometry of individual tokens depends on the lexer;
    see the level note.) *)
-From HL Require Import Lib.Bytes Model.Semantic Model.SemTokens Proofs.SemanticProofs Proofs.SemTokensProofs.
+From HL Require Import Lib.Bytes Model.Lexer Model.Semantic Model.SemTokens Proofs.LexerColumns Proofs.SemanticProofs Proofs.SemTokensProofs.
 Open Scope N_scope.
 
 (* For every tokenizer, every history of opens, edits, closes, full / range / delta requests
@@ -40,6 +40,18 @@ Theorem C17_every_token_in_legend_and_nonempty : forall text,
   Forall (fun t => t_type t < 13 /\ 0 < t_len t) (sem_tokens text).
 Proof. exact sem_tokens_fine. Qed.
 Print Assumptions C17_every_token_in_legend_and_nonempty.
+
+(* ... and for EVERY byte string every token that is not a tag / tag-value token (those are cut out of a
+   comment by text search) starts exactly where a token of the lexer starts: at a place of the text
+   whose line, UTF-16 column and byte offset agree, on a rune boundary (tok_ok, C08) -- a semantic
+   token never starts inside a surrogate pair or past the end of its line. *)
+Theorem C17_tokens_start_at_lexemes : forall text toks, lex text = Some toks ->
+  Forall (fun x => (t_type x = 5 \/ t_type x = 12) \/
+                   exists k, In k toks /\ tok_ok text k /\
+                             t_line x = tp_line (tk_pos k) - 1 /\ t_col x = tp_col (tk_pos k) - 1)
+         (sem_tokens text).
+Proof. exact sem_tokens_start_at_lexer_tokens. Qed.
+Print Assumptions C17_tokens_start_at_lexemes.
 
 (* non-vacuity: a header with a comment whose tag name is Cyrillic; the tag token has the UTF-16
    length of the name plus the colon (4), the value token starts right behind it *)
